@@ -29,7 +29,7 @@ Proof. exact invalid_token_noop. Qed.
    (deadline 2) is due at phase 1, the composite fails first, the dispatch returns Err, and the timer never fires. *)
 Definition F4_scr : scripts := fun h => if h =? 1 then [mkScript [] 4 0%Z] else [].
 Definition F4_cmds : list cmd :=
-  [CAct (AInsert 1 (SComp false None [mkGen 10 (mkInt true false) Level None false]));
+  [CAct (AInsert 1 (SComp false None [mkGen 10 (mkInt true false) Level None false] None));
    CAct (AInsert 2 (STimer (mkTimer None (Some 2%Z) false)));
    CAct (AFdWrite 10 1); CDispatch 1%Z [1; 4294967296]; CAct (AFdRead 10); CDispatch 2%Z []; CDispatch 3%Z []].
 Theorem C15_F4_refuted :
